@@ -159,3 +159,61 @@ Proof.
   - apply pmap_np. intros l Hl. apply filter_In in Hl as [_ Hm]. apply parse_meta_np, Hm.
   - intros metas. apply pbind_np; [|discriminate]. apply pmap_np. intros l _. apply parse_factor_np.
 Qed.
+
+(** ** what the components reader does not look at (C10, text level) *)
+(** the reader, after the text has been cut into trimmed lines *)
+Definition parse_trimmed (ls : list str) : pres Components :=
+  dop metas <- pmap parse_meta (filter is_meta_line ls);
+  dop dn <- parse_data_lines (filter is_data_line ls) [] (mkNeeds None None None);
+  let (data, nd) := dn in
+  let n0 := match data with e :: _ => length (e_vals e) | [] => 12%nat end in
+  if negb (forallb (fun e => (length (e_vals e) =? n0)%nat) data) then PErr ParseError else
+  of_res (normalize (mkComponents metas data nd)).
+
+Lemma parse_components_lines s : parse_components s = parse_trimmed (map trim (lines (strip_bom s))).
+Proof. reflexivity. Qed.
+
+Lemma trim_start_pad w x : forallb is_ws w = true -> trim_start (w ++ x) = trim_start x.
+Proof.
+  induction w as [|c w IH]; intros H; [reflexivity|]. cbn [forallb] in H. apply andb_true_iff in H as [Hc Hw].
+  cbn [app trim_start]. rewrite Hc. apply IH, Hw.
+Qed.
+
+Lemma forallb_rev {A} (p : A -> bool) l : forallb p (rev l) = forallb p l.
+Proof. induction l as [|a l IH]; [reflexivity|]. cbn [rev forallb]. rewrite forallb_app, IH. cbn [forallb]. rewrite andb_true_r. apply andb_comm. Qed.
+
+Lemma trim_end_pad w x : forallb is_ws w = true -> trim_end (x ++ w) = trim_end x.
+Proof. intros H. unfold trim_end. rewrite rev_app_distr, trim_start_pad by (rewrite forallb_rev; exact H). reflexivity. Qed.
+
+(** white space around a line is not seen *)
+Lemma trim_pad w1 w2 x : forallb is_ws w1 = true -> forallb is_ws w2 = true -> trim (w1 ++ x ++ w2) = trim x.
+Proof.
+  intros H1 H2. unfold trim. rewrite trim_start_pad by exact H1.
+  (* trim_start (x ++ w2): either x is all white (then everything goes) or its first non-white character stays first *)
+  assert (G : forall x, trim_end (trim_start (x ++ w2)) = trim_end (trim_start x)).
+  { induction x0 as [|c x0 IH].
+    - cbn [app trim_start]. rewrite <- (app_nil_r w2) at 1. rewrite trim_start_pad by exact H2. reflexivity.
+    - cbn [app trim_start]. destruct (is_ws c); [exact IH|]. change (c :: x0 ++ w2) with ((c :: x0) ++ w2). apply trim_end_pad, H2. }
+  apply G.
+Qed.
+
+Theorem padded_lines_same ls (w1 w2 : str -> str) :
+  (forall l, forallb is_ws (w1 l) = true /\ forallb is_ws (w2 l) = true) ->
+  map trim (map (fun l => w1 l ++ l ++ w2 l) ls) = map trim ls.
+Proof. intros H. rewrite map_map. apply map_ext. intros l. destruct (H l). apply trim_pad; assumption. Qed.
+
+(** a line that is neither a metadata line nor a data line — blank, a comment, a header starting with "vector," — is not seen *)
+Theorem ignored_line_same a l b :
+  is_meta_line l = false -> is_data_line l = false -> parse_trimmed (a ++ l :: b) = parse_trimmed (a ++ b).
+Proof. intros Hm Hd. unfold parse_trimmed. rewrite !filter_app. cbn [filter]. rewrite Hm, Hd. reflexivity. Qed.
+
+(** a byte order mark in front of the text is not seen *)
+Theorem bom_same s : match s with c :: _ => c <> 65279%N | [] => True end -> parse_components (65279%N :: s) = parse_components s.
+Proof.
+  intros H. unfold parse_components. cbn [strip_bom]. rewrite N.eqb_refl.
+  destruct s as [|c r]; [reflexivity|]. cbn [strip_bom]. destruct (N.eqb_spec c 65279); [contradiction|reflexivity].
+Qed.
+
+(** a CR before the LF that ends a line is not seen *)
+Lemma strip_cr_crlf l : strip_cr (l ++ [13%N]) = l.
+Proof. unfold strip_cr. rewrite rev_app_distr. cbn [rev app]. rewrite N.eqb_refl. apply rev_involutive. Qed.
